@@ -82,6 +82,15 @@ func baseKey(v ssa.Value) (ssa.Value, string) {
 			v = fa.X
 			continue
 		}
+		// a pointer loaded from a field (`d.sb.m`, `d.sb.fieldFSTs`): two loads of the same field of the
+		// same value name the same struct (the pointer fields in question are set once, at construction)
+		if u, ok := r.(*ssa.UnOp); ok && u.Op == token.MUL {
+			if fa, ok := u.X.(*ssa.FieldAddr); ok {
+				path = fmt.Sprintf(".*%d%s", fa.Field, path)
+				v = fa.X
+				continue
+			}
+		}
 		return r, fmt.Sprintf("%p%s", r, path)
 	}
 	return v, fmt.Sprintf("%p%s", v, path)
@@ -215,12 +224,24 @@ func ruleR2() *Rule {
 				if s.Vectors && !c.p.Cfg.Vectors {
 					continue
 				}
+				// a count kept in a sync/atomic integer needs no mutex: every access is a method of that type
+				if structHasField(c.p, s.Struct, s.Field) && fieldIsSyncAtomic(c.p, s.Struct, s.Field) {
+					c.okP(s.Props, "atomic-by-type/"+s.Struct+"."+s.Field, "-", s.Struct+"."+s.Field+" is a sync/atomic value: it can only be accessed atomically")
+					continue
+				}
 				// anchor: field and mutex exist
 				if !structHasField(c.p, s.Struct, s.Field) || !structHasField(c.p, s.MuStruct, s.MuFld) {
 					c.undecidedP(s.Props, "anchor/"+s.Struct+"."+s.Field, "-", "guarded field "+s.Struct+"."+s.Field+" and its mutex "+s.MuStruct+"."+s.MuFld+" exist", "table line matches nothing (field or mutex renamed/removed)")
 					continue
 				}
 				specs = append(specs, s)
+			}
+			// fields of a segment that some function writes with the segment's own mutex held (a lazily
+			// filled cache next to fieldFSTs): guarded fields by the code's own say-so — every access
+			// is held to it
+			for _, d := range discoveredGuards(c.p) {
+				d := d
+				specs = append(specs, &d)
 			}
 			r2Locksets(c, specs)
 			r2Atomics(c)
@@ -677,4 +698,127 @@ func r2SectionsRegistry(c *RuleCtx) {
 			funcShortName(fn)+" writes segmentSections and is callable after initialisation", props, nil)
 	}
 	c.add(statusOf(len(writers) >= 1), "registry/writers", "-", "writers of the section registry are found", "none found", props, nil)
+}
+
+// discoveredGuards: fields of SegmentBase / Segment, not tabled, that are written somewhere with the mutex
+// of the same struct value held in write mode.
+func discoveredGuards(p *Program) []guardSpec {
+	if p.discGuards != nil {
+		return *p.discGuards
+	}
+	var out []guardSpec
+	seen := map[string]bool{}
+	tabled := func(sn, fld string) bool {
+		for _, g := range guardTable {
+			if g.Struct == sn && g.Field == fld {
+				return true
+			}
+		}
+		for _, a := range atomicTable {
+			if a.Struct == sn && a.Field == fld {
+				return true
+			}
+		}
+		return false
+	}
+	for _, fn := range p.ZapFuncs {
+		var pa *pathAnalysis
+		locks := map[string]int{}
+		held := func(in ssa.Instruction, key string) bool {
+			if pa == nil {
+				pa = newPathAnalysis(fn, func(in ssa.Instruction, ev uint64, deferred bool) []uint64 {
+					cs, ok := in.(ssa.CallInstruction)
+					if !ok {
+						return nil
+					}
+					if _, isDefer := in.(*ssa.Defer); isDefer && !deferred {
+						return nil
+					}
+					id, op, ok := mutexOp(cs)
+					if !ok {
+						return nil
+					}
+					k := id.mu + "@" + id.base
+					bit, have := locks[k]
+					if !have {
+						bit = len(locks)
+						locks[k] = bit
+					}
+					if bit > 60 {
+						return nil
+					}
+					switch op {
+					case "Lock":
+						return []uint64{ev | 1<<uint(bit)}
+					case "Unlock":
+						return []uint64{ev &^ (1 << uint(bit))}
+					}
+					return nil
+				})
+				pa.run(0)
+			}
+			bit, have := locks[key]
+			if !have {
+				return false
+			}
+			sts := pa.statesBefore(in)
+			if len(sts) == 0 {
+				return false
+			}
+			for _, ev := range sts {
+				if ev&(1<<uint(bit)) == 0 {
+					return false
+				}
+			}
+			return true
+		}
+		eachInstr(fn, func(_ *ssa.BasicBlock, in ssa.Instruction) {
+			var sn, fld string
+			var base ssa.Value
+			var ok bool
+			switch x := in.(type) {
+			case *ssa.Store:
+				sn, fld, base, ok = fieldOf(x.Addr)
+			case *ssa.MapUpdate:
+				sn, fld, base, ok = loadedField(x.Map)
+			}
+			if !ok || (sn != "SegmentBase" && sn != "Segment") || fld == "m" || tabled(sn, fld) || seen[sn+"."+fld] {
+				return
+			}
+			if al := baseAlloc(base); al != nil && al.Parent() == fn {
+				return
+			}
+			if !structHasField(p, sn, "m") {
+				return
+			}
+			_, bk := baseKey(base)
+			if held(in, sn+".m@"+bk) {
+				seen[sn+"."+fld] = true
+				out = append(out, guardSpec{sn, fld, sn, "m", true, false, []string{"C11"}, "written with " + sn + ".m held in " + funcShortName(fn) + " (discovered)"})
+			}
+		})
+	}
+	p.discGuards = &out
+	return out
+}
+
+// fieldIsSyncAtomic: the field's type is one of the integer types of package sync/atomic.
+func fieldIsSyncAtomic(p *Program, sn, fld string) bool {
+	nt := p.NamedType(sn)
+	if nt == nil {
+		return false
+	}
+	st, ok := nt.Underlying().(*types.Struct)
+	if !ok {
+		return false
+	}
+	for i := 0; i < st.NumFields(); i++ {
+		if st.Field(i).Name() != fld {
+			continue
+		}
+		if n, ok := types.Unalias(st.Field(i).Type()).(*types.Named); ok && n.Obj().Pkg() != nil && n.Obj().Pkg().Path() == "sync/atomic" {
+			return true
+		}
+	}
+	return false
 }
